@@ -26,6 +26,42 @@ def run(F):
         # the lift: a call producing a dual value from a tainted one (mapv(.., From::from))
         lifts = [s for s in ta.sinks if s["kind"] == "call" and s["what"] == "mapv"]
         iid = "sweep|%s" % tag
+        delegate_problems = []
+        if not lifts:
+            # lift and sweeps moved together into a private helper of the same impl (`monomer_fraction_derivatives(&x, delta_ab, ..)`):
+            # judge the helper's body; at the call, the helper's dual parameters must receive this function's own dual inputs
+            for s_ in ta.sinks:
+                if s_["kind"] != "call":
+                    continue
+                t_ = b.blocks[s_["bi"]]["term"]
+                hb = F.callee_body(t_)
+                if hb is None or hb.is_closure() or hb.get("vis") == "Public" or hb.path.rsplit("::", 1)[0] != b.path.rsplit("::", 1)[0] \
+                        or hb["arg_count"] != len(t_["args"]):
+                    continue
+                real = [i + 1 for i, a in enumerate(t_["args"]) if ta.op_tainted(a)]
+                hta = r01_dualflow.Taint(F, hb, param_taint=frozenset(real)).run()
+                hl = [x for x in hta.sinks if x["kind"] == "call" and x["what"] == "mapv"]
+                if len(hl) != 1:
+                    continue
+                for i, a in enumerate(t_["args"], start=1):
+                    if i in real or not (hb.lty(i) or {}).get("dual"):
+                        continue
+                    if a.get("k") not in ("copy", "move"):
+                        delegate_problems.append("argument %d of %s is a constant" % (i, hb.path.split("::")[-1]))
+                        continue
+                    pr, stops = provenance(b, defs, [a["place"]["l"]])
+                    if not pr or any(x.startswith("call:") for x in stops):
+                        delegate_problems.append("argument %d of %s is not one of the function's own dual inputs" % (i, hb.path.split("::")[-1]))
+                # the helper's result must be what the function goes on with: success of the function is dominated by the call
+                oks_ = [bi for bi, si, st in b.stmts() if st["place"]["l"] == 0 and st["rv"]["k"] == "agg" and st["rv"]["kind"].get("variant") == "Ok"
+                        and s_["bi"] in dom.get(bi, ())]
+                if not oks_:
+                    delegate_problems.append("no success return is dominated by the call of %s" % hb.path.split("::")[-1])
+                b, ta, lifts = hb, hta, hl
+                defs = Defs(b)
+                dom = dominators(b)
+                gd_name = [g["name"] for g in b["generics"] if any(bd.startswith("num_dual::DualNum") for bd in g["bounds"])]
+                break
         if len(lifts) != 1:
             r.inst(iid, b.file_line(), "violation")
             r.fail("%s|lift-count" % tag, b.file_line(), "%s: expected exactly one lift of the real iterate into D, found %d" % (tag, len(lifts)))
@@ -85,6 +121,7 @@ def run(F):
                         problems.append("sweep argument %d is not one of the function's own dual inputs (%s)" % (i, sorted(stops)[:2]))
                 if callee(st_)[0].rsplit("::", 1)[0] != b.path.rsplit("::", 1)[0]:
                     problems.append("the sweep calls a different implementation of %s" % STEP)
+        problems += delegate_problems
         if problems:
             r.inst(iid, lifts[0]["where"], "violation", problems=problems)
             r.fail("%s|sweep" % tag, lifts[0]["where"], "%s: %s — derivatives of the association contribution would be wrong/missing" % (tag, "; ".join(problems)))
